@@ -48,10 +48,11 @@ StartPoints ==
   {[op |-> op, o |-> o, args |-> a, argmode |-> am, envmode |-> IF o.envx = <<>> THEN em ELSE em2, ret |-> r,
     exp |-> [c |-> MapOptions(o, op = "fork", IF o.envx = <<>> THEN em ELSE em2, a),
              res |-> MapResult(IF op = "fork" THEN (IF r = 0 THEN 1 ELSE 0) ELSE 0, r)]] :
-     op \in {"start", "fork", "clone_start"}, o \in Variations \cup {Base}, a \in Args, am \in {"vec", "raw"},
+     op \in {"start", "fork", "clone_start"}, o \in Variations \cup {Base}, a \in Args,
+     am \in {"vec", "raw", "held"},   \* held: converted to reproc::arguments first, the source container changed afterwards
      em \in {"none", "raw"}, em2 \in {"vec", "map", "raw"}, r \in {1, 0, -22}}
 
-Rets == {-22, -32, -110, -12, -11, -5, -2, 0, 1, 7, 143}
+Rets == {-22, -32, -110, -12, -11, -5, -4, -2, 0, 1, 7, 143}   \* (-4: an interrupted call is reported like any other error, once, not retried)
 MethodPoints ==
   {[op |-> "method", m |-> "pid", ret |-> r, exp |-> [last |-> "pid", res |-> MapResult(r, r)]] : r \in Rets}
   \cup {[op |-> "method", m |-> "wait", arg |-> t, ret |-> r, exp |-> [last |-> "wait", seen |-> <<t>>, res |-> MapResult(r, r)]] : r \in Rets, t \in {0, 25, -1, -2}}
